@@ -492,6 +492,9 @@ class ColorVisuals(Visuals):
         key: hashable object, in self._data
         """
         mask = np.asanyarray(mask)
+        # colors edited in place in the generated default array are
+        # still in the cache: make them user data before masking
+        self._verify_hash()
         if key in self._data:
             self._data[key] = self._data[key][mask]
 
